@@ -23,6 +23,12 @@ class of their universe by the letter-swap symmetry or by an inferral strategy (
 equivalence representative -- the situation of the fixed defect D5), classes with a prefix, classes tracking a
 statistic, classes stored compressed, pairs that are not equinumerous, and two entries whose pack cannot specify them
 with the default rule database (documented ValueError).  Packs: only atoms are verified (the finder documents that).
+
+The local pack "step" (inferral strategy StepRemoveRedundantPatterns: a two-way single-child rule whose strategy
+declares can_be_equivalent() False, so parent and child share an equivalence label without being joined by an
+equivalence rule) is paired with every entry under the EqPathParallelSpecFinder only -- the variant written for that
+situation; the base finder documents that it assumes classes sharing a label to be equivalent.  Its entries have 0, 1
+or 2 redundant patterns, so the two sides of a pair traverse different numbers of such steps.
 """
 import contextlib
 import multiprocessing
@@ -31,15 +37,19 @@ from collections import Counter
 import deal
 
 import comb_spec_searcher.bijection as bijection
-from comb_spec_searcher import CombinatorialSpecificationSearcher
+from comb_spec_searcher import CombinatorialSpecificationSearcher, StrategyPack
 from comb_spec_searcher.isomorphism import Isomorphism
 from comb_spec_searcher.specification import CombinatorialSpecification
-from comb_spec_searcher.strategies.rule import EquivalencePathRule
+from comb_spec_searcher.strategies.rule import EquivalencePathRule, VerificationRule
 from harness.universe import (
     PACKS,
     Av,
     AvBytes,
     brute_count,
+    ExpansionStrategy,
+    RemoveFrontOfPrefix,
+    StatAtomStrategy,
+    StepRemoveRedundantPatterns,
     brute_objects,
     class_from_repr,
     silence,
@@ -112,12 +122,45 @@ _PACKS_QUICK = ["stat", "sym", "inferral", "factory"]
 _NO_SPEC = [(Av("a", ["bb"], "ab"), "quotient"), (Av("a", ["aba"], "ab"), "reverse")]
 
 
+# packs of the universe plus the local ones
+C13_PACKS = dict(PACKS)
+C13_PACKS["step"] = lambda: StrategyPack(
+    initial_strats=[RemoveFrontOfPrefix()],
+    inferral_strats=[StepRemoveRedundantPatterns()],
+    expansion_strats=[[ExpansionStrategy()]],
+    ver_strats=[StatAtomStrategy()],
+    name="step",
+)
+EQPATH_ONLY_PACKS = ("step",)
+# classes for the pack "step": no / one / two redundant patterns, and letter-swapped partners
+_STEP_CLASSES = [
+    Av("", ["aa"], "ab"),
+    Av("", ["aa", "aab"], "ab"),
+    Av("", ["bb", "abb"], "ab"),
+    Av("", ["bb", "bba", "abb"], "ab"),
+    Av("", ["bb"], "ab"),
+    Av("", ["b", "bbb"], "b"),
+    Av("", ["a"], "a"),
+    Av("", ["ab", "aba"], "ab"),
+    Av("", ["ba"], "ab"),
+    Av("", ["aa", "aab"], "ab", False, ("na",)),
+    Av("", ["bb"], "ab", False, ("nb",)),
+]
+
+
 def pool(tier):
     packs = _PACKS_QUICK if tier == "quick" else _PACKS_ALL
     classes = _CLASSES if tier != "quick" else _CLASSES[:26] + _CLASSES[27:29] + _CLASSES[30:31]
     entries = [(repr(c), p) for c in classes for p in packs if p in PACKS]
     entries += [(repr(c), p) for c, p in _NO_SPEC if p in PACKS]
+    entries += [(repr(c), "step") for c in _STEP_CLASSES]
     return entries
+
+
+def finders_for(p1, p2):
+    if p1 in EQPATH_ONLY_PACKS or p2 in EQPATH_ONLY_PACKS:
+        return ["EqPathParallelSpecFinder"]
+    return list(FINDERS)
 
 
 # --------------------------------------------------------------------------------------------------------------
@@ -157,6 +200,19 @@ def _closed(spec, start, which):
     return True
 
 
+def _unary_chain_to_verified(spec) -> bool:
+    cls, seen = spec.root, set()
+    while cls in spec.rules_dict and cls not in seen:
+        seen.add(cls)
+        rule = spec.rules_dict[cls]
+        if isinstance(rule, VerificationRule):
+            return True
+        if len(rule.children) != 1:
+            return False
+        cls = rule.children[0]
+    return False
+
+
 def _post_find(self, result):
     COUNTS["find"] += 1
     info = self.__dict__.setdefault("_h_info", {})
@@ -170,6 +226,10 @@ def _post_find(self, result):
     COUNTS["find:pair"] += 1
     info["outcome"] = "pair"
     pis = (self._pi1, self._pi2)  # pylint: disable=protected-access
+    # classification of a witness (not of the verdict): a start class is joined to a verified class by single-child
+    # rules only, i.e. the second search matches the two roots through its atom base case
+    if any(_unary_chain_to_verified(spec) for spec in result):
+        _LAST["marker"] = "start-label-verified"
     starts = []
     for which, (spec, pi) in enumerate(zip(result, pis), 1):
         css = pi.searcher
@@ -233,10 +293,12 @@ def run_case(case):
     _LAST.clear()
 
     def viol(check, what):
+        if "marker" in _LAST:
+            witness["marker"] = _LAST["marker"]
         return {"check": check, "witness": witness, "what": what[:600]}
 
-    s1 = CombinatorialSpecificationSearcher(class_from_repr(c1), PACKS[p1]())
-    s2 = CombinatorialSpecificationSearcher(class_from_repr(c2), PACKS[p2]())
+    s1 = CombinatorialSpecificationSearcher(class_from_repr(c1), C13_PACKS[p1]())
+    s2 = CombinatorialSpecificationSearcher(class_from_repr(c2), C13_PACKS[p2]())
     silence()
     try:
         f = FINDERS[finder](s1, s2)
@@ -270,7 +332,7 @@ def _worker(cases):
 
 def run(tier, seed):
     entries = pool(tier)
-    cases = [(c1, p1, c2, p2, f) for (c1, p1) in entries for (c2, p2) in entries for f in FINDERS]
+    cases = [(c1, p1, c2, p2, f) for (c1, p1) in entries for (c2, p2) in entries for f in finders_for(p1, p2)]
     nchunks = NPROC * 8
     chunks = [cases[i::nchunks] for i in range(nchunks)]
     ctx = multiprocessing.get_context("fork")
@@ -289,6 +351,8 @@ def run(tier, seed):
                for c, i in (pairs[:: max(1, len(pairs) // 4)][:4] + infos[:: max(1, len(infos) // 3)][:3])]
     return {
         "bound": (f"ALL {len(entries)}^2 ordered pairs of a pool of {len(entries)} (start class, pack) entries x 2 finders "
+                  f"(pairs involving the local pack 'step' -- {len(_STEP_CLASSES)} entries with 0-2 redundant patterns, "
+                  f"a two-way single-child rule that is not an equivalence rule -- under EqPathParallelSpecFinder only) "
                   f"= {len(cases)} calls; pool = {len({e[0] for e in entries})} classes (alphabets a, b, ab; <= 2 patterns "
                   "of length <= 3; prefix length <= 2; 0-1 statistics; an atom; two stored compressed) x packs "
                   f"{sorted({e[1] for e in entries})}; returned specifications compared with brute force for n <= {NMAX}"),
@@ -306,12 +370,14 @@ def run(tier, seed):
 
 
 def _dedupe(viols):
+    """At most 4 witnesses per (check, marker), the smallest first."""
     viols = sorted(viols, key=lambda v: (v["check"], len(str(v["witness"])), str(v["witness"])))
     out, per = [], Counter()
     for v in viols:
-        if per[v["check"]] >= 4:
+        key = (v["check"], v["witness"].get("marker"))
+        if per[key] >= 4:
             continue
-        per[v["check"]] += 1
+        per[key] += 1
         out.append(v)
     return out[:20]
 
